@@ -32,7 +32,7 @@ def all_units():
     out = {}
     for p in sorted(glob.glob(os.path.join(CONTRACTS, '*.rs'))):
         unit, _ = weave.parse_template(p)
-        out[unit['name']] = {'path': p, 'props': unit['props']}
+        out[unit['name']] = {'path': p, 'props': unit['props'] + unit.get('also', [])}
     return out
 
 
